@@ -82,6 +82,10 @@ func All() []*Instance {
 		h4([]string{"suggest-SELCT"}, []string{"suggest-FORM", "suggest-SELCT"}),
 		h4([]string{"validate-typo"}, []string{"suggest-SELCT", "parse-bad"}),
 		h4([]string{"newscanner-scansql"}, []string{"newscanner-scansql"}, []string{"suggest-SELCT"}),
+		// two texts through the linter, each goroutine linting both: state kept between calls and keyed by text
+		h4([]string{"lint"}, []string{"lint-other", "lint"}),
+		h4([]string{"lint", "lint-other"}, []string{"lint-other", "lint"}),
+		h4([]string{"lint-other", "lint"}, []string{"lint-other", "lint"}),
 		// the config file cache (RWMutex + atomics; check-then-act load/insert)
 		h4([]string{"config-cached"}, []string{"config-cached"}),
 		h4([]string{"config-cached", "config-cached"}, []string{"config-cached"}),
